@@ -12,16 +12,23 @@ use std::io::Write;
 pub const LETTERS: [&str; 19] = ["a", "e", "i", "o", "u", "p", "t", "k", "b", "d", "s", "z", "m", "n", "l", "r", "j", "w", "h"];
 const VOWELS: [&str; 5] = ["a", "e", "i", "o", "u"];
 const CONS: [&str; 14] = ["p", "t", "k", "b", "d", "s", "z", "m", "n", "l", "r", "j", "w", "h"];
+/// less ordinary segments (several place nodes, pharyngeals, glottals, clicks, diacritics); never the planted q / x
+const RARE: [&str; 16] = ["ħ", "ʕ", "tˤ", "kʷ", "ʔ", "ɡʷ", "pʲ", "ŋ", "ɲ", "ʃ", "t͡s", "ɴǃ", "ɫ", "e̘", "o̙", "ɥ"];
 
 /// a random word text over the generator's inventory; `long`: allow length marks; stress and tone are common
 pub fn gen_word_text(rng: &mut Rng, long: bool) -> String {
+    if rng.chance(1, 8) {
+        // tiny words: a rule can consume them whole
+        let c = *rng.pick(&CONS[..]); let v = *rng.pick(&VOWELS[..]);
+        return match rng.below(4) { 0 => v.to_string(), 1 => format!("{c}{v}"), 2 => format!("{v}{c}"), _ => format!("{v}.{c}{v}") };
+    }
     let nsyl = 1 + rng.below(4);
     let mut s = String::new();
     for i in 0..nsyl {
         match rng.below(5) { 0 => s.push('ˈ'), 1 => s.push('ˌ'), _ => if i > 0 { s.push('.') } }
         let shape = rng.below(6);
         let mut segs: Vec<&str> = Vec::new();
-        if shape != 0 { segs.push(*rng.pick(&CONS[..])); }
+        if shape != 0 { segs.push(if rng.chance(1, 6) { *rng.pick(&RARE[..]) } else { *rng.pick(&CONS[..]) }); }
         if shape == 4 { segs.push(*rng.pick(&CONS[..])); }
         segs.push(*rng.pick(&VOWELS[..]));
         if shape == 5 { segs.push(*rng.pick(&VOWELS[..])); }
@@ -222,6 +229,44 @@ pub fn record(prop: &str, rules_file: &str, out: &str, nwords: usize) {
                     prev = st.word.clone();
                 }
                 if sum.samples.len() < 4 && o.out == "ok" { sum.sample(|| json!({"history": hist, "word": wt, "final": v::render_word(&prev, &al)})); }
+            }
+            // systematic stratum: every cardinal, its place sub-nodes removed one rule at a time in every order, then restored
+            let names = ["labial", "coronal", "dorsal", "pharyngeal"];
+            for (g, seg) in t.cards.iter() {
+                let present: Vec<usize> = (0..4).filter(|i| seg.get_node(NODES7[3 + i]).is_some()).collect();
+                let mut orders: Vec<Vec<usize>> = vec![vec![]];
+                for _ in 0..present.len() { orders = orders.into_iter().flat_map(|o| present.iter().filter(|x| !o.contains(x)).map(|x| { let mut n = o.clone(); n.push(*x); n }).collect::<Vec<_>>()).collect(); }
+                for o in orders {
+                    let mut hist: Vec<String> = o.iter().map(|i| format!("[] > [-{}]", names[*i])).collect();
+                    hist.push(format!("[] > [+{}]", names[*o.last().unwrap_or(&0)]));
+                    let word = v::make_word(&[(vec![*seg], 0, 0)], false);
+                    let out = run_rules(&hist, &word, 100_000, false);
+                    sum.vectors += 1; sum.count(out.out, 1); sum.count("node_order_sweep", 1);
+                    let mut prev = word.clone();
+                    for (si, st) in out.steps.iter().enumerate() {
+                        if st.word != prev { sum.nontrivial += 1; }
+                        let key = w_compact(&st.word, true).to_string();
+                        if seen.insert(key) {
+                            w.put(json!({"cls": "sweep", "out": "ok", "w": w_compact(&st.word, true)}), json!({"history": hist, "word": g, "step": si, "rule_index": st.rule, "sub": st.sub, "before": v::render_word(&prev, &al), "after": v::render_word(&st.word, &al)}));
+                        }
+                        prev = st.word.clone();
+                    }
+                }
+            }
+            // systematic stratum: rules that can consume a whole (tiny) word
+            for wt in ["a", "ta", "at", "tat", "a.ta", "ta.ta", "ˈta", "ta5", "a.a", "t.a"] {
+                for rule in ["[] [] > *", "C V > *", "V C > *", "[] [] [] > *", "C V C > *", "[] $ [] > *", "% > *", "% % > *", "[] > *", "V > * / _#", "C > * / #_", "[] [] > * / #_#", "V $ C V > *", "{t, a} {t, a} > *"] {
+                    let Ok(word) = v::parse_word(wt, &al) else { continue };
+                    let out = run_rules(&[rule.to_string()], &word, 100_000, false);
+                    sum.vectors += 1; sum.count(out.out, 1); sum.count("whole_word_sweep", 1);
+                    for (si, st) in out.steps.iter().enumerate() {
+                        if st.word != word { sum.nontrivial += 1; }
+                        let key = format!("{}|{}", rule, w_compact(&st.word, true));
+                        if seen.insert(key) {
+                            w.put(json!({"cls": "sweep", "out": "ok", "w": w_compact(&st.word, true)}), json!({"history": [rule], "word": wt, "step": si, "rule_index": st.rule, "sub": st.sub, "before": wt, "after": v::render_word(&st.word, &al)}));
+                        }
+                    }
+                }
             }
             sum.count("distinct_intermediate_words", w.n);
         }
